@@ -13,7 +13,7 @@ NOTE = ("Trusted: Verus/z3/rustc, vstd's std specifications, the axioms, assumed
         "evidence.coverage.trusted_base (string model A1-A9, two UTF-8 bridge facts in the lexer unit, slice::Iter::position, slice_all/any/find/rposition "
         "wrappers, the Peekable::peek model, f64 operations total, finl_unicode classifiers, SourceDiag/Located::new/Recover "
         "stand-ins, bitflags stand-ins generated from the source), the extraction "
-        "tool (tools/vx + tools/vgen.py: insert-only splicing plus the logged rewrites X1-X9, fidelity-checked every run). "
+        "tool (tools/vx + tools/vgen.py: insert-only splicing plus the logged rewrites X1-X10 and wrapcast, fidelity-checked every run). "
         "Functions listed under assumed_contracts are stubs with assumed contracts, not proofs. Kani: CBMC/CaDiCaL bit-precise, "
         "termination not proved; bounded harnesses are listed under bounded_not_counted and never counted as discharged.")
 
@@ -145,7 +145,7 @@ m = {
     ],
     "checks": checks,
     "not_applicable": na,
-    "notes": "See DESIGN.md. known_findings.json lists the genuine defects found and fixed (fix: commits in /repo).",
+    "notes": "See DESIGN.md (Implementation status, §5a, §9, §10). known_findings.json lists the six genuine defects found and fixed (fix: commits in /repo) and the one open finding (build_ast todo!()). seeded/, mutants/ and benign/ hold the changes the checks were tried against; exit 2 + UNDECIDED means the check could not judge (tool limit, lost proof anchor), never that the property is violated.",
 }
 json.dump(m, open(os.path.join(ROOT, "MANIFEST.json"), "w"), indent=1)
 # structural fallback positions of the text anchors, recorded on the current (pristine) tree
